@@ -143,7 +143,7 @@ func diedResult(prop string, err error) (fp, what string, herr error) {
 		if d.Timeout {
 			return prop + "/no-answer", "no answer within the job deadline\n" + tailStr(d.Stderr, 1200), nil
 		}
-		return prop + "/worker-died/" + d.Frame, d.Exit + "\n" + tailStr(d.Stderr, 1500), nil
+		return prop + "/worker-died/" + d.Frame, d.Exit + "\n" + trunc(d.Stderr, 3500), nil
 	}
 	return "", "", err
 }
